@@ -1989,6 +1989,8 @@ size_t rtosc_scan_arg_vals(const char* src,
 {
     size_t last_bufsize;
     size_t rd=0;
+    // the printer may have broken the line in front of the first argument
+    for(; isspace(*src); ++src) ++rd;
     for(size_t i = 0; i < n; )
     {
         last_bufsize = bufsize;
